@@ -4,6 +4,7 @@ import UsualProofs.C18.ConfigP
 import UsualProofs.C18.LoadP
 import UsualProofs.C18.Float
 import UsualProofs.C18.StrtodP
+import UsualProofs.C18.FmtP
 /-!
 # C18 — Config parser delivers exactly the documented events and typed values
 
@@ -397,6 +398,34 @@ example : applySetter exEnv .timeDouble [50, 46, 53] = some (.dbl (dblOfRat fals
   set_time_double_nearest exEnv rfl [50] [53] (by decide) (by decide) (by decide) (by decide) (by decide)
     (by decide)
 
+/-- **the range limit of `cf_set_time_usec` is strict**: a text whose `USEC*v + 0.5` is exactly 2^64
+    ("18446744073709.551", "1.8446744073709551e13") is rejected, "18446744073709.548" is accepted
+    and stored (`v < 2^64`, not `v <= (double)UINT64_MAX`, which rounds up to 2^64) -/
+theorem time_usec_range_limit_strict :
+    applySetter exEnv .timeUsec [49, 56, 52, 52, 54, 55, 52, 52, 48, 55, 51, 55, 48, 57, 46, 53, 53, 49] = none ∧
+    applySetter exEnv .timeUsec [49, 46, 56, 52, 52, 54, 55, 52, 52, 48, 55, 51, 55, 48, 57, 53, 53, 49, 101, 49, 51] = none ∧
+    applySetter exEnv .timeUsec [49, 56, 52, 52, 54, 55, 52, 52, 48, 55, 51, 55, 48, 57, 46, 53, 52, 56] = some (.usec 18446744073709547520) := by
+  decide +kernel
+
+/-- **round trip, time (µs), concrete libc model, ALL values** (no sampling): under the concrete
+    binary64 / `strtod` / `%g` model, for every `n` microseconds with at most six significant
+    digits in `%g`'s fixed-notation range — `n/10^6 = D·10^(X-5)` with six digits
+    `10^5 ≤ D < 10^6` and `-4 ≤ X ≤ 5`, i.e. every such value from 100 µs to 999999 s — the text
+    `cf_get_time_usec` renders is accepted by `cf_set_time_usec` and stores `n` again.
+    (Proof: both roundings of the getter keep the value within 2⁻⁴⁰ of `n/10^6`; the decimal
+    exponent search and the half-even rounding to six digits recover `D` and `X`; the layout is a
+    plain decimal spelling of `n/10^6`; the setter is exact on every such spelling.) -/
+theorem set_get_roundtrip_time_usec (env : Env) (hs : env.strtod = strtodC) (hg : env.fmtG = fmtG)
+    (n D : Nat) (X : Int) (hD1 : 100000 ≤ D) (hD2 : D < 1000000) (hX1 : -4 ≤ X) (hX2 : X ≤ 5)
+    (hn : n * 100000 = D * 10 ^ (X + 6).toNat) :
+    (applyGetter env .timeUsec (some (.usec n))).bind (applySetter env .timeUsec) = some (.usec n) :=
+  time_usec_roundtrip env hs hg n D X hD1 hD2 hX1 hX2 hn
+
+/-- 249 µs = 249000·10^(-4-5): the getter prints "0.000249", the setter reads 249 back -/
+example : (applyGetter exEnv .timeUsec (some (.usec 249))).bind (applySetter exEnv .timeUsec) = some (.usec 249) :=
+  set_get_roundtrip_time_usec exEnv rfl rfl 249 249000 (-4) (by decide) (by decide) (by decide) (by decide)
+    (by decide)
+
 /-- **round trip, time, concrete libc model** (`strtodC`, `fmtG`, IEEE round-to-nearest-even):
     each of the listed microsecond counts (among them the ones the unrepaired code got wrong:
     248…251, 488…511, 977…1009) — and each listed millisecond count as a double — is rendered by
@@ -412,10 +441,11 @@ theorem set_get_roundtrip_time_partial :
       (applyGetter exEnv .timeDouble (some (.dbl (dblOfRat false k 1000)))).bind
         (applySetter exEnv .timeDouble) = some (.dbl (dblOfRat false k 1000))) := by
   decide +kernel
-/- The setter half of the full statement is proved for all values: `time_usec_exact` (numeric,
-   all n < 2^40) and `set_time_usec_every_decimal_spelling` (the concrete `strtodC` on every plain
-   decimal spelling).  What is still only sampled is the getter half of the concrete libc model:
-   that `fmtG` (the `%g` model) prints the canonical spelling of n/10^6.  Full statement:
+/- For microseconds the full statement is now `set_get_roundtrip_time_usec` above (all values with
+   <= 6 significant digits from 100 us to 999999 s).  What this finite list still adds: values
+   below 100 us (printed by %g in exponent notation, "9.9e-05"; the strtod model's exponent
+   parsing is not covered by `strtodC_plain`), and cf_set/get_time_double (same argument with
+   `set_time_double_nearest`, plus ratio-invariance of `roundRat`, not done).  Former statement:
    theorem set_get_roundtrip_time_full : ∀ u < 10^6 * 2^31, (u has at most 6 significant decimal
      digits) → (applyGetter exEnv .timeUsec (some (.usec u))).bind (applySetter exEnv .timeUsec)
      = some (.usec u)   -- and the analogue for doubles with ≤ 6 significant digits -/
